@@ -404,7 +404,73 @@ def run(ctx):
     r6.check(bool(st0) and "json_dict.get(constants.CHILDREN)" in norm(st0[0].value), "workbook_to_json:root frame", "the root frame's children list is the JSON root's children list", w2j.loc())
     rules.append(r6)
     rules.append(tree_agreement_rule(ctx, "C02", "C02.R7"))
+    rules.append(_fresh_elements_rule(ctx))
     return rules
+
+
+def _fresh_elements_rule(ctx):
+    """Every element the builder hands out is freshly made for the dict it was asked to build: an element has ONE parent
+    link (get_xpath follows it) but sits in every children list it was appended to, so an element object handed out
+    twice (memoised per section / per name / per dict) is emitted under both parents while all its binds and refs
+    name only the last one.  Decided as a retention rule: no value computed from an element-creating call is stored
+    in the builder's own state or in a module-level container."""
+    from ..effects import writes_in
+    repo = ctx.repo
+    r8 = Rule("C02", "C02.R8", "the builder retains no survey elements (each build hands out fresh objects)", floor=3,
+              necessary="an element object reachable from two parents is written under both in the instance but bound / referenced under one path only")
+    bcls = repo.cls("pyxform.builder:SurveyElementBuilder")
+    se = repo.cls("pyxform.survey_element:SurveyElement")
+    elem_classes = {c.name for m in repo.modules.values() for c in m.classes.values()
+                    if any(b.name == "SurveyElement" for b in ctx.consts.interp.mro(c))} | {"SurveyElement"}
+    creators = {n for n in bcls.methods if n.startswith(("create_", "_create_"))} | elem_classes
+    n_fn = n_writes = 0
+    for name, fi in sorted(bcls.methods.items()):
+        n_fn += 1
+        # locals that (transitively) hold the result of a creating call
+        holds = set()
+        changed = True
+        while changed:
+            changed = False
+            for x in walk_own(fi.node):
+                tgt = val = None
+                if isinstance(x, ast.Assign) and len(x.targets) == 1:
+                    tgt, val = x.targets[0], x.value
+                elif isinstance(x, ast.AnnAssign) and x.value is not None:
+                    tgt, val = x.target, x.value
+                elif isinstance(x, ast.For | ast.comprehension):
+                    tgt, val = x.target, x.iter
+                if tgt is None:
+                    continue
+                made = any(isinstance(c, ast.Call) and call_name(c) in creators for c in ast.walk(val)) or \
+                    any(isinstance(n, ast.Name) and n.id in holds for n in ast.walk(val))
+                if made:
+                    for n in ast.walk(tgt):
+                        if isinstance(n, ast.Name) and n.id not in holds and n.id != "self":
+                            holds.add(n.id)
+                            changed = True
+        for kind, tgt, node in writes_in(fi.node):
+            base = tgt
+            while isinstance(base, ast.Subscript | ast.Attribute) and not (isinstance(base, ast.Attribute) and isinstance(base.value, ast.Name) and base.value.id == "self"):
+                base = base.value
+            if not (isinstance(base, ast.Attribute) and isinstance(base.value, ast.Name) and base.value.id == "self"):
+                continue
+            n_writes += 1
+            vals = []
+            if kind in ("store", "aug"):
+                vals = [node.value]
+            elif kind == "mutator":
+                vals = list(node.args) + [k.value for k in node.keywords]
+            tainted = any((isinstance(c, ast.Call) and call_name(c) in creators) or (isinstance(c, ast.Name) and c.id in holds)
+                          for v in vals for c in ast.walk(v))
+            r8.check(not tainted, f"{fi.qualname}:{norm(tgt)[:40]} <- {norm(vals[0])[:40] if vals else ''}", "builder state does not keep an element it has built", fi.loc(node),
+                     why_fail="the stored value comes from an element-creating call: a later build can hand the same object to a second parent")
+    r8.check(n_fn >= 6 and n_writes >= 3, "builder census", f"{n_fn} builder methods, {n_writes} writes to builder state examined", bcls.module.relpath)
+    # lru_cache / cache on a creating method is the same retention
+    for name, fi in sorted(bcls.methods.items()):
+        decs = [norm(d) for d in getattr(fi.node, "decorator_list", [])]
+        if name in creators:
+            r8.check(not any("cache" in d for d in decs), f"{fi.qualname}:decorators", "element-creating methods are not memoised", fi.loc(), why_fail=f"decorators {decs}")
+    return r8
 
 
 def _subst_arg(fi, val):
